@@ -126,6 +126,9 @@ pub fn position_command(start: &Pos, moves: &[String]) -> String {
 
 #[derive(Clone, Debug)]
 pub struct Step {
+    /// harmless commands sent before this step's position (idle stop, isready, ucinewgame,
+    /// setoption, uci): they must not disturb the answer to the go that follows
+    pub pre: Vec<String>,
     pub position: String,
     pub go: String,
     pub fen_after: String,
@@ -180,7 +183,18 @@ pub fn build_steps(c: &SessionCase, corp: &corpus::Corpus) -> Vec<Step> {
             classes.push("later-go-of-session");
         }
         let nontrivial = spec.can_cut_first_iteration(wtm) || game.cur.in_check(wtm) || n_legal <= 3 || !steps.is_empty();
+        let mut pre = vec![];
+        {
+            let mut e2 = Entropy::new(&c.ent[i][12..]);
+            for _ in 0..e2.pick(3) {
+                pre.push(["stop", "isready", "ucinewgame", "setoption name Hash value 1", "uci", "stop"][e2.pick(6)].to_string());
+            }
+        }
+        if !pre.is_empty() {
+            classes.push("idle-commands-before");
+        }
         steps.push(Step {
+            pre,
             position: position_command(&game.start, &game.moves_uci()),
             go: spec.command(),
             fen_after: game.cur.to_fen(),
@@ -193,7 +207,7 @@ pub fn build_steps(c: &SessionCase, corp: &corpus::Corpus) -> Vec<Step> {
 }
 
 pub fn steps_json(steps: &[Step]) -> Value {
-    json!({"steps": steps.iter().map(|s| json!({"position": s.position, "go": s.go, "fen_after": s.fen_after, "time_bound_ms": s.time_bound_ms})).collect::<Vec<_>>()})
+    json!({"steps": steps.iter().map(|s| json!({"pre": s.pre, "position": s.position, "go": s.go, "fen_after": s.fen_after, "time_bound_ms": s.time_bound_ms})).collect::<Vec<_>>()})
 }
 
 pub const ALLOWANCE_MS: u64 = 3000;
@@ -220,6 +234,9 @@ pub fn run_session(ctx: &Ctx, steps: &[Step], rep: &mut Report) -> Result<(), Vi
     }
     let mut gos = 0usize;
     for (i, st) in steps.iter().enumerate() {
+        for p in &st.pre {
+            eng.send(p);
+        }
         eng.send(&st.position);
         let t0 = eng.now();
         eng.send(&st.go);
@@ -285,7 +302,7 @@ pub fn run(ctx: &Ctx) -> Report {
     if ctx.shard_index() == 0 {
         let sp = Pos::startpos();
         for go in ["go nodes 1", "go depth 1", "go movetime 0", "go depth 3", "go btime 1000", "go wtime 0", "go wtime 1 winc 0 depth 200"] {
-            let st = Step { position: "position startpos".into(), go: go.into(), fen_after: sp.to_fen(), time_bound_ms: None, classes: vec!["regression"], nontrivial: true };
+            let st = Step { pre: vec![], position: "position startpos".into(), go: go.into(), fen_after: sp.to_fen(), time_bound_ms: None, classes: vec!["regression"], nontrivial: true };
             match run_session(ctx, &[st], &mut rep) {
                 Ok(()) => {}
                 Err(v) => {
@@ -316,6 +333,7 @@ pub fn replay(ctx: &Ctx, case: &Value) -> Report {
         .map(|a| {
             a.iter()
                 .map(|s| Step {
+                    pre: s["pre"].as_array().map(|a| a.iter().filter_map(|x| x.as_str().map(String::from)).collect()).unwrap_or_default(),
                     position: s["position"].as_str().unwrap_or("").to_string(),
                     go: s["go"].as_str().unwrap_or("").to_string(),
                     fen_after: s["fen_after"].as_str().unwrap_or("").to_string(),
@@ -333,7 +351,7 @@ pub fn replay(ctx: &Ctx, case: &Value) -> Report {
 }
 
 pub const LEVEL: &str = "exploration";
-pub const RULE: &str = "UCI sessions against the real engine binary: 1..5 consecutive (position, go) pairs; positions with >= 1 legal move from startpos / corpus / synthesised / pattern starts (in-check and near-stalemate positions included) plus up to 30 plies of play; limits = any subset of {depth 1..255, nodes 1..200000 log-spaced, movetime 0..400 ms, wtime/btime 0..60000 ms, winc/binc 0..100 ms}, with depth <= 5 when nothing else bounds the work. Oracle per go: exactly one bestmove line, legal per the rules oracle, arriving before min(movetime, own clock + increment) + 3 s (60 s when only depth/nodes bound the search); a search-thread panic on stderr settles 'no bestmove' at once; then isready -> readyok within 3 s; bestmove count == go count at session end. Non-trivial = a limit can cut the first iteration (nodes <= 2000, time bound <= 20 ms, depth <= 2, only the opponent's clock), or the position is in check or has <= 3 legal moves, or it is the 2nd+ go of a session; distinct by (position, go command).";
+pub const RULE: &str = "UCI sessions against the real engine binary: 1..5 consecutive (position, go) pairs, each optionally preceded by idle commands (stop, isready, ucinewgame, setoption, uci); positions with >= 1 legal move from startpos / corpus / synthesised / pattern starts (in-check and near-stalemate positions included) plus up to 30 plies of play; limits = any subset of {depth 1..255, nodes 1..200000 log-spaced, movetime 0..400 ms, wtime/btime 0..60000 ms, winc/binc 0..100 ms}, with depth <= 5 when nothing else bounds the work. Oracle per go: exactly one bestmove line, legal per the rules oracle, arriving before min(movetime, own clock + increment) + 3 s (60 s when only depth/nodes bound the search); a search-thread panic on stderr settles 'no bestmove' at once; then isready -> readyok within 3 s; bestmove count == go count at session end. Non-trivial = a limit can cut the first iteration (nodes <= 2000, time bound <= 20 ms, depth <= 2, only the opponent's clock), or the position is in check or has <= 3 legal moves, or it is the 2nd+ go of a session; distinct by (position, go command).";
 pub const ASSUMPTIONS: &[&str] = &[
     "the rules oracle decides legality of the answer",
     "deadlines are generous stand-ins for 'in time' (limit + 3 s); a harness-side spawn failure or a missing first readyok is reported as inconclusive (exit 2), never as a violation",
